@@ -17,6 +17,7 @@ import os
 import re
 import shutil
 import subprocess
+import threading
 import sys
 import tempfile
 import time
@@ -73,8 +74,51 @@ def goenv():
 TLC_CP = "/opt/veriftools/tla/tla2tools.jar:/opt/veriftools/tla/CommunityModules-deps.jar"
 
 
+class _MemBudget:
+    """JVM heaps of concurrently running TLC processes are kept within a share of the machine's memory
+    (a judge that is killed for lack of memory gives no verdict)"""
+
+    def __init__(self):
+        total = 16
+        try:
+            with open("/proc/meminfo") as fh:
+                for line in fh:
+                    if line.startswith("MemTotal:"):
+                        total = int(line.split()[1]) // (1 << 20)
+        except OSError:
+            pass
+        self.budget = max(8, int(total * 0.7))
+        self.used = 0
+        self.cv = threading.Condition()
+
+    def acquire(self, gb):
+        gb = min(gb, self.budget)
+        with self.cv:
+            while self.used + gb > self.budget:
+                self.cv.wait()
+            self.used += gb
+        return gb
+
+    def release(self, gb):
+        with self.cv:
+            self.used -= gb
+            self.cv.notify_all()
+
+
+MEM = _MemBudget()
+
+
 def run_tlc(work, module, cfg, workers=NCPU, env=None, timeout=900, extra=None, heap=None, out_file=None):
     """run TLC in a scratch copy of the spec directory; returns (rc, output or path)"""
+    heap = heap or "8g"
+    gb = MEM.acquire(int(heap.rstrip("g")))
+    try:
+        return _run_tlc(work, module, cfg, workers, env, timeout, extra, heap, out_file)
+    finally:
+        MEM.release(gb)
+
+
+def _run_tlc(work, module, cfg, workers, env, timeout, extra, heap, out_file):
     d = work.sub("tlc")
     for f in os.listdir(os.path.join(VERIF, "spec")):
         if f.endswith(".tla"):
@@ -163,7 +207,7 @@ def judge(work, module, cfg, trace, env=None, timeout=1800):
     e = {"VERIF_TRACE": trace}
     if env:
         e.update(env)
-    rc, out, wall = run_tlc(work, module, cfg, workers=1, env=e, timeout=timeout, heap="12g")
+    rc, out, wall = run_tlc(work, module, cfg, workers=1, env=e, timeout=timeout, heap="8g")
     verdicts, drift, done, stats, stat2, vac = [], [], None, {}, {}, []
     for line in out.splitlines():
         m = RE_TUPLE.match(line.strip())
